@@ -47,14 +47,32 @@ def py_value(op, m):
     raise ValueError(k)
 
 
+def fresh_model_reversed(n):
+    """the same equations with the parameters declared in the opposite order (a second model in the same process)"""
+    import pg
+    ps = NAMES[:n]
+    return pg.model(state=["x%d" % i for i in range(n)], param=ps[::-1],
+                    ode=[pg.Transition(origin="x%d" % i, equation=ps[i], transition_type=pg.TransitionType.ODE)
+                         for i in range(n)])
+
+
 def run_history(n, ops):
     """returns per op: dict(ok, pval, seen) where seen = ode(x,t), i.e. the value bound to each parameter"""
     m = fresh_model(n)
     out = []
     for op in ops:
         try:
-            m.parameters = py_value(op, m)
+            val = py_value(op, m)
+            m.parameters = val
             ok = True
+            # what was assigned are the VALUES: the caller's container may be reused for something else afterwards
+            if isinstance(val, list) and val and not isinstance(val[0], tuple):
+                val[:] = [v + 100000 for v in val]
+            elif isinstance(val, np.ndarray):
+                val += 100000.0
+            elif isinstance(val, dict):
+                for k in list(val):
+                    val[k] = val[k] + 100000
         except BaseException as e:          # noqa: B902  (pygom raises Exception/Warning/AttributeError)
             ok = False
         pval = [int(v) if float(v) == int(v) else float(v) for v in (m._paramValue or [])] \
@@ -64,6 +82,14 @@ def run_history(n, ops):
         except BaseException:
             seen = None
         out.append(dict(ok=ok, pval=pval, seen=seen))
+    # a second model with the same equations and the parameters declared in the opposite order, given the final values by name
+    if out and out[-1]["seen"] is not None and any(r["ok"] for r in out):
+        try:
+            m2 = fresh_model_reversed(n)
+            m2.parameters = {NAMES[i]: out[-1]["seen"][i] for i in range(n)}
+            out[-1]["rev_seen"] = [float(v) for v in np.asarray(m2.ode(np.zeros(n), 0.0)).ravel()]
+        except BaseException as e:          # noqa: B902
+            out[-1]["rev_seen"] = "%s: %s" % (type(e).__name__, str(e)[:100])
     return out
 
 
@@ -106,7 +132,8 @@ def gen_history(rng, maxlen):
     ops = []
     for _ in range(L):
         r = rng.random()
-        val = lambda: int(rng.integers(-50, 1000))
+        # mostly small integers; sometimes values that differ from each other by parts in a billion (a change is a change)
+        val = lambda: int(rng.integers(-50, 1000)) if rng.random() > 0.12 else 1000000000 + int(rng.integers(0, 4))
         bad = rng.random() < 0.18          # malformed stream
         if r < 0.07:
             # 2-D arrays: (n,k), (k,n), (1,n), (n,1)
@@ -188,6 +215,10 @@ def judge(h, res):
             return (cls, "after op %d evaluators see %s but the values given by name are %s" % (i, r["seen"], want))
         if ok is False and h["ops"][i]["kind"].startswith("dict"):
             rejected_dict_before = True
+    last = res[-1] if res else {}
+    if "rev_seen" in last and last["rev_seen"] != last["seen"]:
+        return ("second-model-order", "a second model with the same equations and parameters declared in the opposite order, given %s by "
+                "name, evaluates to %s" % (last["seen"], last["rev_seen"]))
     return None
 
 
@@ -211,6 +242,9 @@ CORPUS = [
     dict(n=3, ops=[dict(kind="pairs", items=[[2, 1], [0, 2], [1, 3]]), dict(kind="dict_sym", items=[[1, 5]]),
                    dict(kind="array", items=[7, 8, 9]), dict(kind="dict_mixed", items=[[1, 5], [0, 11]])]),
     dict(n=1, ops=[dict(kind="list", items=[5]), dict(kind="dict_str", items=[[0, 6]]), dict(kind="pairs", items=[[0, 4]])]),
+    # successive values that differ by one part in a billion
+    dict(n=2, ops=[dict(kind="list", items=[1000000000, 7]), dict(kind="list", items=[1000000001, 7]),
+                   dict(kind="dict_str", items=[[0, 1000000002]]), dict(kind="pairs", items=[[1, 7], [0, 1000000003]])]),
     # names the model knows as symbols but that are not parameters (t, a state): rejected, and nothing changes
     dict(n=1, ops=[dict(kind="dict_str", items=[[UNKNOWN_T, 868]]), dict(kind="dict_mixed", items=[[0, 904]])]),
     dict(n=5, ops=[dict(kind="pairs", items=[[4, 813], [3, 779], [1, 386], [2, 852], [0, 821]]),
